@@ -2,7 +2,7 @@
 
 use crate::common::*;
 use crate::sim::{self, Monitor};
-use crate::{kv, listen, mtu, pairs, select, wirecheck};
+use crate::{catchup, fd, kv, listen, mtu, pairs, select, wirecheck};
 
 pub fn run_property(ctx: &Ctx) -> Option<Report> {
     let r = match ctx.prop.as_str() {
@@ -96,6 +96,31 @@ pub fn run_property(ctx: &Ctx) -> Option<Report> {
             pairs::run_c20b(ctx, &mut r);
             r
         }
+        "C10" => {
+            let mut r = Report::new(
+                "cases = (failure-detector configuration: phi in [0.5,16], window 1..1000, initial/max interval log-uniform over 10 ms..100 s; history of fresh heartbeat arrivals through SYN digests and liveness evaluations, with inter-arrival times from 0 to beyond max_interval, long silences, and evaluations placed at last_fresh + T(1 +- 1e-6) and just past the deadline) on the virtual clock;                  non-trivial = the sampling window wrapped around at least once or the member alternated dead -> live -> dead; distinct = by case",
+            );
+            r.assume("tolerance: evaluations within T*1e-9 + 1 us after the deadline are not asserted (f64 arithmetic)");
+            r.assume("liveness evidence rule used: live implies two strictly increasing heartbeat observations at most max_interval apart, the later one after the last evaluation that classified the member dead");
+            fd::run_c10(ctx, &mut r);
+            r
+        }
+        "C11" => {
+            let mut r = Report::new(
+                "cases = (a) metamorphic twin: two identical observers receive the same fresh heartbeat schedule, the twin additionally receives stale digests (equal, lower, relayed) at generated times incl. around the death deadline; classification and stored heartbeat must agree at every evaluation; (b) accuracy: arrivals with gaps in [a,b], b <= max_interval, phi = b/min(a,initial) x (1 + margin), evaluations anywhere inside the gaps from the third observation on must report live;                  non-trivial = (a) a stale digest arrived before an evaluation more than T/2 after the last fresh heartbeat, (b) margin below 5 %; distinct = by case",
+            );
+            r.assume("relative tolerance 1e-9 on the accuracy bound");
+            fd::run_c11(ctx, &mut r);
+            r
+        }
+        "C18" => {
+            let mut r = Report::new(
+                "cases = (existing copy: absent / empty / arbitrary incl. mid-reset / removed-and-remembered, optionally with fresh heartbeats; supplied state: any key set, versions, statuses, max version and watermark, consistent or not; optional follow-up honest-form gossip) fed to reset_node_state_if_update on a real node, next to a twin that does not receive the call;                  non-trivial = the call passed both early-return guards (supplied max above the copy's max and not below its watermark) or targets a removed member; distinct = by case",
+            );
+            r.assume("follow-up gossip only after well-formed supplied states (distinct versions <= supplied max)");
+            catchup::run(ctx, &mut r);
+            r
+        }
         _ => return None,
     };
     Some(r)
@@ -109,6 +134,9 @@ pub fn replay_property(ctx: &Ctx, sub: &str, case: &serde_json::Value) -> SubRes
         "C07" => mtu::replay(ctx, sub, case),
         "C08" => wirecheck::replay(ctx, sub, case),
         "C14" => pairs::replay_c14(ctx, sub, case),
+        "C18" => catchup::replay(ctx, sub, case),
+        "C10" => fd::replay(ctx, sub, case, "C10"),
+        "C11" => fd::replay(ctx, sub, case, "C11"),
         "C04" => match sub {
             "histories" => sim::replay(ctx, sub, case, Monitor::C04),
             "copy-x-delta-pairs" | "random-multi-member-deltas" => pairs::replay_apply(ctx, sub, case, "C04"),
